@@ -9,6 +9,12 @@ CHECKS = {
  "C02": ("exploration", "runtime oracle (math/big) over seeded adversarial multisets and permutations of the real functions",
          "Held on every generated multiset/permutation: result inside the range implied for every choice of faulty positions, order independent, slice only permuted. Exploration is the right level: the input space is unbounded, the oracle is exact.",
          "trusts math/big, slices.Sort of the harness, the seeded generator's coverage of boundary magnitudes (|v|<2^62)", "3/C02"),
+ "C04": ("exploration", "runtime oracle on the real conversion functions: boundary-dense (reference,time) pairs across four era boundaries, exhaustive sub-second and fraction sweeps in the thorough tier",
+         "Held on every generated pair; thorough enumerates all 10^9 nanosecond values and all 2^32 fractions. Exploration over (t0,t) pairs with exhaustive sub-spaces; exactness oracle, no tolerance.",
+         "trusts package time's arithmetic; window taken at whole-second granularity (see evidence assumptions)", "3/C04"),
+ "C18": ("exploration", "runtime oracle (math/big, exact rationals) on the exported conversion functions; exhaustive scaled-ppm range in the thorough tier",
+         "Held on all generated values including every int64 boundary class; the kernel's scaled-ppm range is enumerated completely in thorough.",
+         "trusts math/big; CSPTP offset/delay inputs bounded so that no intermediate overflows int64 ns", "3/C18"),
 }
 
 NOT_APPLICABLE = {
